@@ -28,6 +28,10 @@ def gen(rng, count, quick):
         sh = rng.choice([0.0, 0.0, rng.uniform(-0.6, 0.6)])
         pmin, pmax = f32(-6 + sh), f32(6 + sh)
         delta = (pmax - pmin) / (n - 1)
+        # the explicit scheme is stable for e1/delta^2 < 1/2 only (a limit of the scheme the user has to respect; beyond it
+        # grid-scale oscillations grow, reach the border rows and the moments stop following the recurrence)
+        while e1 / (delta * delta) > 0.4:
+            e1 = f32(e1 / 2)
         means = [rng.choice([0.0, 0.0, rng.uniform(-0.5, 0.5)]) for _ in range(nb)]
         mean = means[0]
         steps = int(min(2000 if quick else 6000, 6.0 / e1)) if fpt in (1, 3) else int(1.0 / e1)
